@@ -500,7 +500,7 @@ def check_property(pid, tier, jobs):
     nontrivial = [r for r in passed if any(p["status"] == "SUCCESS" for p in r["prop_asserts"])]
     obligations = sum(r["checks_total"] for r in results)
     discharged = sum(r["checks_total"] - r["checks_failed"] - r.get("undetermined", 0) for r in passed)
-    functions = sorted({f for r in results for f in r["functions"]})
+    functions = sorted({f for r in results for f in r["functions"]}, key=lambda f: (not f.startswith("fuel_"), f))
     samples = []
     for r in results[:12]:
         samples.append({"harness": r["name"], "status": r["status"], "bound": r["decl"].get("bound"),
